@@ -56,6 +56,13 @@ def payloads(gname, g, pu):
         m_part = np.zeros(shp, dtype=bool)
         m_part.reshape(-1)[1] = True
         out += [("masked_none", np.ma.array(base.copy(), mask=False), base), ("masked_part", np.ma.array(base.copy(), mask=m_part), base), ("masked_full", np.ma.array(base.copy(), mask=True), base)]
+    # integer and single-precision payloads (the numbers must be converted, not truncated)
+    ibase = (np.arange(n, dtype=np.int64) * 250 + 250).reshape(shp) if shp else np.array(1500)
+    out.append(("int64", ibase.astype(np.int64), ibase.astype(float)))
+    out.append(("int32_quantity", U.Quantity(ibase.astype(np.int32), pu), ibase.astype(float)))
+    out.append(("float32", base.astype(np.float32), base.astype(np.float32).astype(float)))
+    if not shp:
+        out.append(("python_int", 90, np.array(90.0)))
     out.append(("quantity_same", U.Quantity(base.copy(), pu), base))
     for fu in FACT:
         if fu != pu and FACT[fu][1] == FACT[pu][1]:
@@ -99,7 +106,7 @@ def run_product(case):
             res.append((pname, "units", f"{d.units} != {cu}"))
         keep = ~np.ma.getmaskarray(payload).reshape(shape_of(g)) if pname.startswith("masked") else np.ones(shape_of(g), dtype=bool)
         wantc = conv(want, pu, cu)
-        if not np.allclose(np.ma.getdata(mag)[0][keep], wantc[keep], rtol=1e-11, atol=1e-9):
+        if not np.allclose(np.ma.getdata(mag)[0][keep], wantc[keep], rtol=1e-5 if pname == "float32" else 1e-11, atol=1e-3 if pname == "float32" else 1e-9):
             res.append((pname, "values", f"got {np.ma.getdata(mag)[0].tolist()} want {wantc.tolist()}"))
         if pname.startswith("masked"):
             wm = np.ma.getmaskarray(payload).reshape(shape_of(g))
